@@ -730,7 +730,39 @@ func (g *groundCtx) constantsAllTargets(tier string) {
 		}(i, t)
 	}
 	wg.Wait()
+	// reference for the target-independence of constant expressions: linux/amd64
+	var refConsts map[string]string
+	for _, r := range results {
+		if r.target == "linux/amd64" && r.err == nil {
+			refConsts = constExprValues(r.eng)
+		}
+	}
 	built := 0
+	for _, r := range results {
+		if r.err == nil && refConsts != nil && r.target != "linux/amd64" {
+			// The compiler's source files (everything in packages seccomp and arch that this target shares with linux/amd64;
+			// the loader's own file is selected by build constraint and talks to one kernel ABI only): every constant
+			// expression - declared constants, unsafe.Sizeof/Offsetof, conversions of literals - has the value it has on
+			// linux/amd64. Together with the absence of int-width dependent arithmetic in the contracts (all instruction
+			// fields are uint32/uint8) this is what makes the compiled program a function of the policy and the table only.
+			cur := constExprValues(r.eng)
+			var diffs []string
+			n := 0
+			for _, k := range sortedKeys(cur) {
+				ref, shared := refConsts[k]
+				if !shared {
+					continue
+				}
+				n++
+				if ref != cur[k] && len(diffs) < 6 {
+					diffs = append(diffs, fmt.Sprintf("%s: %s here, %s on linux/amd64", k, cur[k], ref))
+				}
+			}
+			fn := "target." + r.target
+			g.add(fn, fn+"#ground.constexprs", fmt.Sprintf("all %d constant expressions of the compiler's files shared with linux/amd64 have the same value on %s", n, r.target),
+				len(diffs) == 0 && n > 0, strings.Join(diffs, "; "), token.NoPos)
+		}
+	}
 	for _, r := range results {
 		fn := "target." + r.target
 		if r.err != nil {
@@ -956,4 +988,38 @@ func (g *groundCtx) globalsImmutable(only [][2]string) {
 		}
 		g.add(fn, fn+"#ground.immutable", v.pkg+"."+v.name+" is never assigned, mutated or address-taken outside init() in the module's non-test files (read-only shared data: no race, no history dependence)", len(bad) == 0, strings.Join(bad, "; "), obj.Pos())
 	}
+}
+
+// constExprValues: value of every constant expression in the non-loader files of packages seccomp and arch, keyed by
+// file (relative), line, column and source text.
+func constExprValues(en *Engine) map[string]string {
+	out := map[string]string{}
+	for _, pn := range []string{"seccomp", "arch"} {
+		p := en.PkgByName[pn]
+		if p == nil {
+			continue
+		}
+		for e, tv := range p.TypesInfo.Types {
+			if tv.Value == nil {
+				continue
+			}
+			pos := en.Fset.Position(e.Pos())
+			base := filepath.Base(pos.Filename)
+			if strings.HasPrefix(base, "seccomp_") || strings.HasSuffix(base, "_test.go") || strings.Contains(base, "verif_contracts") {
+				continue // loader (one file per operating system), tests, contract files
+			}
+			if tv.Value.Kind() == constant.String && len(constant.StringVal(tv.Value)) > 40 {
+				continue
+			}
+			key := fmt.Sprintf("%s/%s:%d:%d", pn, base, pos.Line, pos.Column)
+			if _, isLit := e.(*ast.BasicLit); isLit {
+				continue
+			}
+			if pn == "arch" && exprString(e) == "runtime.GOARCH" {
+				continue // GetInfo(""): the default table is the host's - the one place where the target may matter (C12/C19: `for a given table`)
+			}
+			out[key+" "+exprString(e)] = tv.Value.ExactString()
+		}
+	}
+	return out
 }
